@@ -16,7 +16,9 @@ Patterns == { PAnd(<<I("a")>>), PAnd(<<T("a", 1, 2)>>), PAnd(<<T("a", 2, 2)>>), 
               PAnd(<<POr(<<PAnd(<<I("a"), I("b")>>), I("a")>>), T("a", 0, 1)>>),
               PAnd(<<PPerm(<<I("a"), I("b")>>)>>), PAnd(<<WithTimes(PNot(I("b")), 1, 2)>>),
               PAnd(<<PNot(I("a")), I("a")>>), PAnd(<<PICap("i"), PICap("i")>>),
-              PAnd(<<WithTimes(POr(<<I("a"), I("b")>>), 2, 3)>>), PAnd(<<I("a"), PNot(I("c")), I("a")>>) }
+              PAnd(<<WithTimes(POr(<<I("a"), I("b")>>), 2, 3)>>), PAnd(<<I("a"), PNot(I("c")), I("a")>>),
+              PAnd(<<T("a", 1, 3), I("a")>>), PAnd(<<T("a", 0, 2), I("a"), I("b")>>),
+              PAnd(<<WithTimes(POr(<<I("a"), I("b")>>), 1, 2), I("b")>>) }
 ASSUME \A P \in Patterns : ~Nullable(P)
 Bodies == { <<m, <<>> >> : m \in {"a", "b", "c"} }
 Listings == ListingsOver(Bodies, 0, MaxListing)
